@@ -30,6 +30,9 @@ func encodeGeometry(g orb.Geometry) (vectortile.Tile_GeomType, []uint32, error) 
 		return vectortile.Tile_POINT, e.Data, nil
 	case orb.LineString:
 		e := newGeomEncoder(2 + 2*len(g))
+		if len(g) == 0 {
+			return vectortile.Tile_LINESTRING, e.Data, nil
+		}
 		e.MoveTo([]orb.Point{g[0]})
 		e.LineTo([]orb.Point(g[1:]))
 
@@ -37,6 +40,9 @@ func encodeGeometry(g orb.Geometry) (vectortile.Tile_GeomType, []uint32, error) 
 	case orb.MultiLineString:
 		e := newGeomEncoder(elMLS(g))
 		for _, ls := range g {
+			if len(ls) == 0 {
+				continue
+			}
 			e.MoveTo([]orb.Point{ls[0]})
 			e.LineTo([]orb.Point(ls[1:]))
 		}
@@ -44,6 +50,9 @@ func encodeGeometry(g orb.Geometry) (vectortile.Tile_GeomType, []uint32, error) 
 		return vectortile.Tile_LINESTRING, e.Data, nil
 	case orb.Ring:
 		e := newGeomEncoder(3 + 2*len(g))
+		if len(g) == 0 {
+			return vectortile.Tile_POLYGON, e.Data, nil
+		}
 		e.MoveTo([]orb.Point{g[0]})
 		if g.Closed() {
 			e.LineTo([]orb.Point(g[1 : len(g)-1]))
@@ -56,6 +65,9 @@ func encodeGeometry(g orb.Geometry) (vectortile.Tile_GeomType, []uint32, error) 
 	case orb.Polygon:
 		e := newGeomEncoder(elP(g))
 		for _, r := range g {
+			if len(r) == 0 {
+				continue
+			}
 			e.MoveTo([]orb.Point{r[0]})
 			if r.Closed() {
 				e.LineTo([]orb.Point(r[1 : len(r)-1]))
@@ -70,6 +82,9 @@ func encodeGeometry(g orb.Geometry) (vectortile.Tile_GeomType, []uint32, error) 
 		e := newGeomEncoder(elMP(g))
 		for _, p := range g {
 			for _, r := range p {
+				if len(r) == 0 {
+					continue
+				}
 				e.MoveTo([]orb.Point{r[0]})
 				if r.Closed() {
 					e.LineTo([]orb.Point(r[1 : len(r)-1]))
